@@ -1,6 +1,7 @@
 package soyhtml
 
 import (
+	"bytes"
 	"math"
 
 	"github.com/robfig/soy/ast"
@@ -189,5 +190,50 @@ func H_renderFail(body, depth int, dup bool) {
 	}
 	if body != 7 {
 		verifAssert(err != nil, "C06: a failing command rendered without error")
+	}
+}
+
+
+var c06Dirs = []string{"insertWordBreaks", "changeNewlineToBr", "truncate", "id", "noAutoescape", "escapeHtml", "escapeUri", "escapeJsString",
+	"bidiSpanWrap", "bidiUnicodeWrap", "json", "noSuchDirective"}
+
+// H_directive: {$a|dir:args} for every built-in directive (and an unknown one) with 0..2 arguments
+// of any kind on a value of any kind: the print returns (output or error), no panic escapes.
+func H_directive(dir, nargs, ka, k1, k2 int) {
+	if nargs < 2 && k2 != 0 || nargs < 1 && k1 != 0 {
+		return
+	}
+	if c06Dirs[dir] == "json" && (ka == 2 || ka == 4 || ka == 5 || ka == 7 || ka == 8) {
+		return // encoding/json on symbolic payloads works through reflection: outside the engine
+	}
+	if c06Dirs[dir] == "changeNewlineToBr" && ka == 5 {
+		return // regexp on symbolic text is outside the engine (checked with concrete strings under C16)
+	}
+	if ka == 4 {
+		return // printing a symbolic float (strconv.FormatFloat) is outside the engine
+	}
+	m := data.Map{}
+	c06Arg(m, "a", ka)
+	var args []ast.Node
+	for i, k := range []int{k1, k2}[:nargs] {
+		name := []string{"b", "c"}[i]
+		c06Arg(m, name, k)
+		args = append(args, &ast.DataRefNode{Key: name})
+	}
+	var buf bytes.Buffer
+	st := &state{wr: &buf, context: newScope(m), autoescape: ast.AutoescapeOn}
+	st.tmpl.Node = &ast.TemplateNode{Name: "t"}
+	var err error
+	func() {
+		defer st.errRecover(&err)
+		st.walk(&ast.PrintNode{Arg: &ast.DataRefNode{Key: "a"}, Directives: []*ast.PrintDirectiveNode{{Name: c06Dirs[dir], Args: args}}})
+	}()
+	if err != nil {
+		verifObserve("res", "error")
+	} else {
+		verifObserve("res", "ok")
+	}
+	if c06Dirs[dir] == "noSuchDirective" || ka == 0 {
+		verifAssert(err != nil, "C06: unknown directive or undefined value printed without error")
 	}
 }
